@@ -32,7 +32,9 @@ RULE = ("boundary tables first (u32 values 0,1,2^31-1,2^31,2^32-1 and out-of-ran
 
 U32_EDGE = [0, 1, 2, 31, 361, 2 ** 31 - 1, 2 ** 31, 2 ** 32 - 1]
 U32_BAD = [-1, 2 ** 32, 2 ** 40]
-STRS = ["", "a", "SHA512", "domain.test", "SP800_108_CTR_HMAC", "ECDH_P256", "DH", "\U0001F600", "x\U00010000y￿", "\0", "a\0b", "é中"]
+STRS = ["", "a", "SHA512", "domain.test", "SP800_108_CTR_HMAC", "ECDH_P256", "DH", "\U0001F600", "x\U00010000y￿", "\0", "a\0b", "é中",
+        # byte-order marks / non-characters / separators in every position: a UTF-16-LE field carries them unchanged
+        "\ufeff", "\ufeffdomain.test", "dom\ufeffain", "domain\ufeff", "\ufffe", "\ufffex", "\uffff\ufeff", "a\u2028b", "\x85", "\ud7ff\ue000", "\u0100\u00ff"]
 STRS_BAD = ["\ud800", "ab\udfffc"]
 
 
